@@ -332,6 +332,13 @@ pub struct RLBuilder {
 }
 
 impl RLBuilder {
+    /// Verification hook: `(tail, start of the pending run, length of the pending run)`.
+    #[cfg(simple_sds_verif)]
+    #[doc(hidden)]
+    pub fn verif_state(&self) -> (usize, usize, usize) {
+        (self.tail, self.run.0, self.run.1)
+    }
+
     /// Returns an empty `RLBuilder`.
     pub fn new() -> Self {
         RLBuilder::default()
